@@ -23,7 +23,11 @@ from orquestra.quantum.utils import bitstring_to_tuple
 
 H = Harness("C04", ["OQ.Base.Ring", "OQ.Base.Mat", "OQ.Base.CaseEq", "OQ.Circ.Lift", "OQ.Circ.Circuit",
                     "OQ.Circ.CircuitCases", "OQ.State.Views", "OQ.State.ViewsCases"],
-            "kinds: basis (X on a random subset then CNOT/CZ/SWAP/S on widths 1-5 with idle qubits: amplitudes, "
+            "kinds: basis (X on a random subset then CNOT/CZ/SWAP/S and, on widths >= 3, gates of arity 3-4 - X.controlled(2), "
+            "CNOT.controlled(1), SWAP.controlled(1), Z.controlled(2), X.controlled(3), SWAP.controlled(2), a custom 3-qubit "
+            "permutation-with-phases gate and its controlled version - mostly on qubit orders whose permutation is not an "
+            "involution (cyclic orders; kinds marked +cyc), about half of them right after X on a proper subset of the gate's "
+            "qubits; widths 1-5 with idle qubits: amplitudes, "
             "get_outcome_probs keys and values, exact distribution keys and values, run_and_measure tuples and count "
             "strings with fewer samples than basis states and with more, exact and measured expectation values of random "
             "Z-type operators with dyadic coefficients - everything compared exactly), superpos (the same with SX gates: "
@@ -63,11 +67,30 @@ def ccounts(d):
 def cop(op):
     return clist(op, lambda t: cpair(cq(Fraction(t[0], 2 ** t[1])), clist(t[2], cnat)))
 
+# a fixed 3-qubit "permutation with phases" gate: column a has the single entry i^P3_PHASE[a] in row P3_PERM[a];
+# it is not invariant under any relabelling of its three qubits
+P3_PERM = [3, 0, 6, 1, 7, 4, 2, 5]
+P3_PHASE = [0, 1, 0, 2, 3, 0, 1, 0]
+_P3 = oqc.CustomGateDefinition(
+    "P3", sympy.Matrix(8, 8, lambda r, c: sympy.I ** P3_PHASE[c] if P3_PERM[c] == r else 0), ())
+
+MULTI = {"CCX": lambda: oqc.X.controlled(2), "CSWAP": lambda: oqc.SWAP.controlled(1),
+         "CCNOT": lambda: oqc.CNOT.controlled(1), "CCZ": lambda: oqc.Z.controlled(2), "P3": lambda: _P3(),
+         "CCCX": lambda: oqc.X.controlled(3), "CCSWAP": lambda: oqc.SWAP.controlled(2), "CP3": lambda: _P3().controlled(1)}
+ARITY = {"CCX": 3, "CSWAP": 3, "CCNOT": 3, "CCZ": 3, "P3": 3, "CCCX": 4, "CCSWAP": 4, "CP3": 4}
+
+def mk_gate(name):
+    return MULTI[name]() if name in MULTI else getattr(oqc, name)
+
 def coq_gate(name, qs):
-    g = getattr(oqc, name)
-    M = g.matrix
+    M = mk_gate(name).matrix
     rows = [[ex(M[i, j]) for j in range(M.shape[1])] for i in range(M.shape[0])]
     return "OGate (G " + clist(rows, lambda r: clist(r, cg)) + " " + clist(qs, cnat) + ")"
+
+def involutive(qs):
+    """the relative order of the listed qubits is a permutation equal to its inverse"""
+    rank = [sorted(qs).index(q) for q in qs]
+    return all(rank[rank[k]] == k for k in range(len(qs)))
 
 # ----------------------------------------------------------------------------- independent oracle simulation
 
@@ -107,10 +130,39 @@ def oracle_state(n, gates):
                 if a != b:
                     j = i ^ (1 << (n - 1 - qs[0])) ^ (1 << (n - 1 - qs[1]))
                 new[j] += psi[i]
+        elif name in ARITY:
+            for i in range(2 ** n):
+                bits, phase = oracle_multi(name, [qbit(n, i, q) for q in qs])
+                j = i
+                for q, b in zip(qs, bits):
+                    j = (j & ~(1 << (n - 1 - q))) | (b << (n - 1 - q))
+                new[j] += phase * psi[i]
         else:
             raise ValueError(name)
         psi = new
     return psi
+
+def oracle_multi(name, b):
+    """action on a basis state, bits listed in the order of the gate's qubits: (new bits, phase)"""
+    b = list(b)
+    if name in ("CCX", "CCNOT"):
+        return (b[:2] + [b[2] ^ (b[0] & b[1])], 1)
+    if name == "CCZ":
+        return (b, -1 if all(b) else 1)
+    if name == "CSWAP":
+        return ([b[0], b[2], b[1]] if b[0] else b, 1)
+    if name == "CCCX":
+        return (b[:3] + [b[3] ^ (b[0] & b[1] & b[2])], 1)
+    if name == "CCSWAP":
+        return (b[:2] + [b[3], b[2]] if b[0] and b[1] else b, 1)
+    if name in ("P3", "CP3"):
+        ctl, t = (b[:1], b[1:]) if name == "CP3" else ([], b)
+        if ctl and not ctl[0]:
+            return (b, 1)
+        a = t[0] * 4 + t[1] * 2 + t[2]
+        r = P3_PERM[a]
+        return (ctl + [(r >> 2) & 1, (r >> 1) & 1, r & 1], 1j ** P3_PHASE[a])
+    raise ValueError(name)
 
 def tuple_index(t):
     n = len(t)
@@ -138,13 +190,44 @@ def rand_op(rng, n, wide=False):
         terms.append([c, rng.randint(0, 3), S])
     return terms
 
+def rand_order(rng, n, k):
+    """k distinct qubits, most of the time in an order whose permutation is not its own inverse (cyclic orders)"""
+    for _ in range(20):
+        qs = rng.sample(range(n), k)
+        if not involutive(qs) or rng.random() < 0.15:
+            return qs
+    return qs
+
+def rand_multi(rng, n):
+    names = [g for g, k in ARITY.items() if k <= n]
+    g = rng.choice(names + [x for x in names if x != "CCZ"])
+    return [g, rand_order(rng, n, ARITY[g])]
+
 def rand_circuit(rng, n, flavour):
-    xs = sorted(rng.sample(range(n), rng.randint(0, n)))
-    gates = [["X", [q]] for q in xs]
     pool1 = {"basis": ["S", "X"], "superpos": ["S", "SX", "SX", "X"], "superpos-h": ["H", "H", "S", "SX", "X"]}[flavour]
+    gates = []
+    if n >= 3 and rng.random() < 0.45:
+        # a gate of arity 3-4 on an unsorted order, on a state that is not symmetric under relabelling its qubits:
+        # X on a non-empty proper subset of the gate's qubits (and possibly on others) first
+        g, qs = rand_multi(rng, n)
+        on = rng.sample(qs, rng.randint(1, len(qs) - 1))
+        if g in ("CCX", "CCNOT", "CCCX", "CCSWAP", "CSWAP", "CP3") and rng.random() < 0.7:
+            nc = {"CCX": 2, "CCNOT": 2, "CCCX": 3, "CCSWAP": 2, "CSWAP": 1, "CP3": 1}[g]
+            on = sorted(set(qs[:nc]) | set(rng.sample(qs[nc:], rng.randint(0, len(qs) - nc - 1))))
+            if g in ("CSWAP", "CCSWAP") and not set(on) & set(qs[nc:]):
+                on.append(rng.choice(qs[nc:]))
+        others = [q for q in range(n) if q not in qs]
+        on = sorted(set(on) | set(rng.sample(others, rng.randint(0, len(others)))))
+        gates = [["X", [q]] for q in on] + [[g, qs]]
+    else:
+        xs = sorted(rng.sample(range(n), rng.randint(0, n)))
+        gates = [["X", [q]] for q in xs]
     budget = 0
     for _ in range(rng.randint(0, 8)):
-        if n >= 2 and rng.random() < 0.55:
+        r = rng.random()
+        if n >= 3 and r < 0.15:
+            gates.append(rand_multi(rng, n))
+        elif n >= 2 and r < 0.55:
             gates.append([rng.choice(["CNOT", "CZ", "SWAP"]), rng.sample(range(n), 2)])
         else:
             g = rng.choice(pool1)
@@ -195,7 +278,7 @@ def gen(rng, tier):
 # ----------------------------------------------------------------------------- cases
 
 def build(inp):
-    return Circuit([getattr(oqc, g)(*qs) for g, qs in inp["gates"]], inp["n"])
+    return Circuit([mk_gate(g)(*qs) for g, qs in inp["gates"]], inp["n"])
 
 def pauli(op):
     return PauliSum([PauliTerm({q: "Z" for q in S}, float(Fraction(c, 2 ** e))) if S else PauliTerm("I0", float(Fraction(c, 2 ** e)))
@@ -362,6 +445,8 @@ def run_state(inp):
     k2 = kind
     if kind == "superpos" and basis_tuple is not None:
         k2 = "superpos-collapsed"
+    if any(g in ARITY and not involutive(qs) for g, qs in gates):
+        k2 += "+cyc"
     return dict(chk=chk, oracle_ok=not fails, oracle_msg="; ".join(fails[:3]), kind=k2 + f"-w{n}",
                 nontrivial=asym(n, gates, op))
 
